@@ -213,6 +213,9 @@ def run_cut_loop(ex, stmt, st, key, lc, guard_fn, bind_fn, advance_fn, label):
                             advance_fn(s_e)
                             for j, inv in enumerate(invs):
                                 ex.goal('%s.preserved#%d' % (name, j), s_e, ex.spec(inv, s_e), {'inv': inv})
+                            for j, ip in enumerate((lc or {}).get('iter_post', [])):
+                                # obligation on every completed iteration (in terms of the iteration's own variables)
+                                ex.goal('%s.iteration#%d' % (name, j), s_e, ex.spec(ip, s_e), {'iteration_post': ip})
                         elif oc == Outcome.BREAK:
                             s_e.trace.append('loop%s:break' % key)
                             results.append((s_e, Outcome.NEXT, None))
